@@ -12,7 +12,7 @@ import (
 // finders, the markup parsers and the two-pass logic. docspec = template id; the
 // members inside a template rotate with the PRNG of the docGen.
 
-const nRichDocs = 23
+const nRichDocs = 24
 
 func pagerHTML(g *docGen, style string, n, k int) string {
 	var sb strings.Builder
@@ -176,6 +176,20 @@ func richDoc(id int, g *docGen) string {
 		}
 		head.WriteString(`<meta charset="utf-8">`)
 		body.WriteString("<div><h1>" + u(3) + "</h1><p>" + u(40) + "</p><p>" + u(35) + "</p><p>" + u(30) + "</p></div>")
+	case 22: // odd <title> strings: the title heuristics cut by index of separators
+		w := func(n int) string { return g.words(n) }
+		titles := []string{
+			w(2) + "\uff1a" + w(3) + " " + w(2), // full-width colon only
+			w(1) + "\uff1a " + w(2) + " " + w(2) + " \uff1a" + w(1),
+			w(3) + ":", ":" + w(3), ": " + w(3) + " " + w(1), w(2) + " : " + w(2) + " : " + w(2),
+			" - " + w(3), w(3) + " - ", " | ", "-", "|" + w(2) + "|" + w(2) + "|", w(2) + " \u2014 " + w(3), w(2) + " \u00bb", "\u00bb " + w(4),
+			w(1) + " > > " + w(1), w(2) + ` \ ` + w(2) + " / " + w(1), "", "   ", w(1), w(2),
+			strings.Repeat(w(1)+" ", 40), strings.Repeat("\u0442\u0435\u0441\u0442 ", 35) + "- " + w(2),
+			w(2) + ":" + w(2) + " " + w(2) + " " + w(1), w(4) + " -" + w(2), w(2) + "- " + w(3), "\u3010" + w(2) + "\u3011" + w(3) + "\uff5c" + w(2),
+		}
+		t := titles[(id/nRichDocs+r.Intn(3))%len(titles)]
+		h := g.pick("", "<h1>"+t+"</h1>", "<h1>"+w(4)+"</h1>", "<h2>"+t+"</h2>")
+		return "<!DOCTYPE html><html><head><title>" + t + "</title></head><body><div>" + h + story(3) + "</div></body></html>"
 	default: // a random abstract document through the doc-family concretiser
 		forest := randomForest(r, 14)
 		return g.page(forest, docPlaces[r.Intn(len(docPlaces))])
